@@ -129,6 +129,7 @@ def alpha(fnode):
             local.add(n.id)
         elif isinstance(n, ast.NamedExpr):
             local.add(n.target.id)
+    _sort_prologue(node)
     mapping = {}
 
     def canon(name):
@@ -152,3 +153,31 @@ def alpha(fnode):
     for stmt in node.body:
         T().visit(stmt)
     return node
+
+
+def _sort_prologue(fnode):
+    """Order-independent initialisations at the start of a function (i = 0; n = len(x)) are sorted by the text of
+    their right-hand sides, so the canonical numbering does not depend on which of them is written first."""
+    body = fnode.body
+    k0 = 1 if body and isinstance(body[0], ast.Expr) and isinstance(body[0].value, ast.Constant) else 0
+    k = k0
+    group = []
+    while k < len(body):
+        st = body[k]
+        if not (isinstance(st, ast.Assign) and len(st.targets) == 1 and isinstance(st.targets[0], ast.Name)):
+            break
+        pure = all(isinstance(n, (ast.Name, ast.Constant, ast.Attribute, ast.Load, ast.List, ast.Tuple, ast.BinOp, ast.operator, ast.UnaryOp, ast.unaryop))
+                   or (isinstance(n, ast.Call) and isinstance(n.func, ast.Name) and n.func.id in ("len",))
+                   for n in ast.walk(st.value))
+        if not pure:
+            break
+        group.append(st)
+        k += 1
+    if len(group) < 2:
+        return
+    targets = [g.targets[0].id for g in group]
+    used = {n.id for g in group for n in ast.walk(g.value) if isinstance(n, ast.Name)}
+    if len(set(targets)) != len(targets) or used & set(targets):
+        return
+    group.sort(key=lambda g: ast.unparse(g.value))
+    body[k0:k] = group
